@@ -81,7 +81,7 @@ Proof.
   rewrite Hf. f_equal. apply apply_all_ext.
   assert (Hs : forall l l', Forall2 veq2 l l' -> Forall2 feq (map snd l) (map snd l')).
   { induction 1 as [|x y r r' [_ H2] Hr IH]; cbn [map]; constructor; assumption. }
-  apply Hs. apply Forall2_firstn. exact H.
+  apply Hs. exact H.
 Qed.
 
 Inductive tgt_eq : atarget -> atarget -> Prop :=
@@ -272,8 +272,8 @@ Proof.
       destruct v; try discriminate H1. cbn [forallb existsb has_w_exp member_target orb]. rewrite H1, Ha, Hb. split; reflexivity. }
     destruct HV as [Hwv Hgv]. cbn [wide_stat has_w_stat]. rewrite Hwv, Hws, Hgv, Hgs. split; reflexivity.
   - intros ns ls at_ es l IHe Hf. cbn [frag_stat] in Hf.
-    apply andb_true_iff in Hf. destruct Hf as [Hf Hlen]. apply andb_true_iff in Hf. destruct Hf as [Hns He].
-    destruct (Fe_list es IHe He) as [Hws Hgs]. cbn [wide_stat has_w_stat]. rewrite Hns, Hws, Hlen, Hgs. split; reflexivity.
+    apply andb_true_iff in Hf. destruct Hf as [Hns He].
+    destruct (Fe_list es IHe He) as [Hws Hgs]. cbn [wide_stat has_w_stat]. rewrite Hns, Hws, Hgs. split; reflexivity.
   - intros n nl f l IH Hf. cbn [frag_stat] in Hf. apply andb_true_iff in Hf. destruct Hf as [Hn Hf].
     destruct f as [?|?|?|?|?|? ?|? ?|? ?|? ? ?|? ? ? ?|? ? ?|c fn ps pl b lf va co|? ?|? ?|? ? ?|? ? ? ?]; try discriminate Hf.
     destruct (IH Hf) as [Hw [Hg _]]. cbn [wide_stat has_w_stat]. rewrite Hn, Hw. split; [reflexivity|exact Hg].
@@ -361,7 +361,7 @@ Proof.
     f_equal. f_equal. f_equal. apply index_map_ext_in. intros i v Hx.
     pose proof (forallb_true_in _ _ Hv v Hx) as Hn. destruct v; try discriminate Hn. reflexivity.
   - (* local *) intros ns ls at_ es l IHe Hf flv slv reg en. cbn [frag_stat] in Hf.
-    apply andb_true_iff in Hf. destruct Hf as [Hf Hlen]. apply andb_true_iff in Hf. destruct Hf as [Hns He].
+    apply andb_true_iff in Hf. destruct Hf as [Hns He].
     cbn [bw_stat b_stat].
     rewrite (map_ext_in (fun e => (e, bw_exp flv slv reg e en)) (fun e => (e, b_exp flv slv reg e en)) es
                         (fun x Hx => f_equal (pair x) (Be_in es IHe He flv slv reg en x Hx))).
